@@ -536,6 +536,14 @@ def runLine (line : String) (env : Env) : ResM (Char × Env) := do
     | none => return ('?', env)
     | some c => step c env
 
+/-- a sequence of (parsed) calls -/
+def runCalls : List Call → Env → ResM (List Char × Env)
+  | [], env => pure ([], env)
+  | c :: cs, env => do
+    let (r, env') ← step c env
+    let (rs, env'') ← runCalls cs env'
+    pure (r :: rs, env'')
+
 def runLines : List String → Env → ResM (List Char × Env)
   | [], env => pure ([], env)
   | l :: ls, env => do
